@@ -35,7 +35,7 @@ func (w *World) pathOf(v ssa.Value) string {
 	if w.cur != nil && w.cur.alias != nil {
 		p = applyAlias(p, w.cur.alias)
 	}
-	return p
+	return pinnedTypeNames(p)
 }
 
 func paramIndex(p *ssa.Parameter) int {
@@ -324,7 +324,7 @@ func (c *flowCtx) literal(a *ssa.Alloc) (string, bool) {
 	n, _ := structOf(a.Type())
 	name := "struct"
 	if n != nil {
-		name = n.Obj().Name()
+		name = pinnedShortName(n)
 	}
 	var ks []string
 	for k := range fs {
@@ -428,7 +428,7 @@ func ifaceMethodName(m *types.Func) string {
 	r := m.Type().(*types.Signature).Recv()
 	if r != nil {
 		if n, ok := types.Unalias(r.Type()).(*types.Named); ok {
-			return n.Obj().Name() + "." + m.Name()
+			return pinnedShortName(n) + "." + m.Name()
 		}
 	}
 	return m.Name()
